@@ -218,6 +218,9 @@ class PWLCalibration(keras.layers.Layer):
       raise ValueError("'input_keypoints' can't be None")
     if monotonicity is None:
       raise ValueError("'monotonicity' can't be None. Did you mean '0'?")
+    if input_keypoints_type is None:
+      raise ValueError("'input_keypoints_type' can't be None. It must be one "
+                       "of 'fixed' or 'learned_interior'.")
     if convexity not in ("none",
                          0) and input_keypoints_type == "learned_interior":
       raise ValueError("Cannot set input_keypoints_type to 'learned_interior'"
